@@ -28,7 +28,9 @@
      c18wres <reference as spelled, e.g. @ident or @.ident> <member name>*   -> <member index> | NONE   (resolve_ref)
      c18wsel <reference> <nmembers> ( <name> <column|-> <value|-> ){nmembers} <nrows> ( <v,v,...> ){nrows}
                                                          -> <p>   (select_named: presence index, 0 = no row)
-     c18woer <ty> <hex: length determinant + container [+ rest]>          -> OK <consumed> <val> | FAIL   (oer_dec_open) *)
+     c18woer <ty> <hex: length determinant + container [+ rest]>          -> OK <consumed> <val> | FAIL   (oer_dec_open)
+   The loop of uper_open_type_put with its decision after every fragment (Rt/OpenTypeFrag.v):
+     c18vput <c|64k> <hex: the complete encoding of the row value>        -> hex of the open type (open_put_c | open_put_64k; whole octets) *)
 open Model
 open Drvlib
 
@@ -327,6 +329,10 @@ and dispatch0 cmd args =
            Some (match select_named ms rows (name_of r) with
                  | Some i -> string_of_int (int_of_nat i + 1)
                  | None -> "0")
+       | _ -> Some "BADARG")
+  | "c18vput" ->
+      (match args with
+       | [r; h] -> Some (hex_of_bytes (bits_to_bytes ((if r = "64k" then open_put_64k else open_put_c) (bytes_of_hex h))))
        | _ -> Some "BADARG")
   | "c18woer" ->
       (match args with
